@@ -76,6 +76,10 @@ pub struct Cfg {
     /// callback must never run while the library holds a lock the callback may need
     #[serde(default)]
     pub reentrant_cb: bool,
+    /// the process has a `tracing` subscriber that enables every level (the library's log
+    /// statements then evaluate their arguments)
+    #[serde(default)]
+    pub tracing_on: bool,
 }
 
 #[derive(Serialize, Deserialize, Clone, Debug, PartialEq)]
